@@ -105,7 +105,7 @@ fn bytes(b: &[u8]) -> String { format!("[{}]", b.iter().map(|x| x.to_string()).c
 pub fn drive(kind: &str, sizes: &[u8], w: &mut diplomat_runtime::DiplomatWrite) {
     let m = w as *mut diplomat_runtime::DiplomatWrite as *mut Mirror;
     unsafe {
-        log(format!("{{\"ev\":\"New\",\"kind\":\"{}\",\"cap\":{}}}\n", kind, (*m).cap));
+        log(format!("{{\"ev\":\"New\",\"kind\":\"{}\",\"cap\":{},\"len\":{}}}\n", kind, (*m).cap, (*m).len));
         let mut k = 0u8;
         for s in sizes {
             let chunk: String = if *s >= 200 { ["", "q", "\u{e9}", "\u{20ac}", "\u{1f600}"][(*s - 200) as usize].to_string() }
@@ -158,8 +158,13 @@ def generated_api_leg(rep, tier):
            'static void ret(const std::string& s) { FILE* f = fopen(getenv("C12_TRACE"), "a"); fprintf(f, "{\\"ev\\":\\"Returned\\",\\"text\\":["); '
            'for (size_t i = 0; i < s.size(); i++) fprintf(f, "%s%u", i ? "," : "", (unsigned)(unsigned char)s[i]); fprintf(f, "]}\\n"); fclose(f); }',
            'int main() { auto c = Chunker::make();']
-    for q in seqs:
+    for i, q in enumerate(seqs):
         cpp.append('  { const uint8_t a[] = %s; ret(c->chunked(diplomat::span<const uint8_t>(a, %d))); }' % (lit(q or [0]) if q else "{0}", len(q)))
+        if i % 4 == 1:
+            # the writer over a std::string that already holds text (WriteFromString is the documented way to write into one's own
+            # string): capacity and length are the string's length, the text stays and the chunks are appended
+            cpp.append('  { std::string s_(%d, \'p\'); const uint8_t a[] = %s; auto w_ = diplomat::WriteFromString(s_); '
+                       'diplomat::capi::Chunker_chunked(c->AsFFI(), {a, %d}, &w_); ret(s_); }' % ([1, 3, 45, 7][(i // 4) % 4], lit(q or [0]) if q else "{0}", len(q)))
     cpp.append('  return 0; }')
     cdrv = ['#include <stdio.h>', '#include <stdlib.h>', '#include "Chunker.h"',
             'static void ret(DiplomatWrite* w) { FILE* f = fopen(getenv("C12_TRACE"), "a"); const char* p = diplomat_buffer_write_get_bytes(w); size_t n = diplomat_buffer_write_len(w); '
@@ -191,8 +196,9 @@ def generated_api_leg(rep, tier):
         evs = lib.read_ndjson(tr)
         total += len(evs)
         rep.traces += len(seqs)
-        if sum(1 for e in evs if e["ev"] == "Returned") != len(seqs):
-            raise lib.ToolError("generated-api leg: %d Returned events for %d calls" % (sum(1 for e in evs if e["ev"] == "Returned"), len(seqs)))
+        ncalls = len(seqs) + (len([i for i in range(len(seqs)) if i % 4 == 1]) if be == "cpp" else 0)
+        if sum(1 for e in evs if e["ev"] == "Returned") != ncalls:
+            raise lib.ToolError("generated-api leg: %d Returned events for %d calls" % (sum(1 for e in evs if e["ev"] == "Returned"), ncalls))
         if not ok:
             rej = r.printed.get("REJECTED", [{}])[0]
             idx = rej.get("index", 0)
